@@ -73,7 +73,7 @@ def run(ctx):
             if ctx.time_left() < 0:
                 break
             d = gen.gen_doc(rng, schema, budget=rng.choice([6, 12, 20]))
-            if rng.random() < 0.25:
+            if rng.random() < 0.4:
                 d = gen.gen_marky_doc(rng, schema) or d
             toks = doc_tokens(d)
             size = d.content.size
@@ -147,6 +147,8 @@ def run(ctx):
             al = sorted(aligned)
             for _ in range(ctx.budget(25, 80)):
                 f, t = sorted((rng.choice(al), rng.choice(al)))
+                if rng.random() < 0.15:
+                    t = f
                 replay = {"schema": info.name, "doc": d.to_json(), "from": f, "to": t}
                 ctx.case(["between", info.name, d.to_json(), f, t], nontrivial=f < t)
 
@@ -163,6 +165,41 @@ def run(ctx):
                 if txt != exp_txt:
                     ctx.violation("text_between", "text_between does not return the text units inside the range",
                                   dict(replay, got=txt, expected=exp_txt))
+                # block range of the two positions, from the token picture: the deepest depth, starting at the depth of
+                # `from` (one less when its parent holds inline content or the two positions coincide), at which `to` still
+                # lies inside from's ancestor; the range runs from before from's child at that depth to after to's
+                anc_f, anc_t = ancestors_from_tokens(toks, f), ancestors_from_tokens(toks, t)
+
+                def parent_inline(anc_):
+                    ty = schema.nodes[toks[anc_[-1]][1]] if anc_ else d.type
+                    return ty.inline_content
+                d0 = len(anc_f) - (1 if parent_inline(anc_f) or f == t else 0)
+                exp_br = None
+                for dd in range(d0, -1, -1):
+                    end_d = size if dd == 0 else match_close(toks, anc_f[dd - 1])
+                    if t <= end_d:
+                        exp_br = [dd, f if dd == len(anc_f) else anc_f[dd], t if dd == len(anc_t) else match_close(toks, anc_t[dd]) + 1]
+                        break
+
+                def br():
+                    x = d.resolve(f).block_range(d.resolve(t))
+                    return None if x is None else [x.depth, x.start, x.end]
+                st5, got_br = outcome(br)
+                ctx.count("block_range_calls")
+                if st5 != "ok" or got_br != exp_br:
+                    ctx.violation("block_range", "block_range disagrees with the token picture of the two positions",
+                                  dict(replay, got=got_br if st5 == "ok" else str(got_br), expected=exp_br))
+                # separators and leaf text (string and callable forms)
+                for sep, lt_impl, lt_ref in (("\n", "", ""), ("|", "*", "*"), ("\n\n", lambda n: "" if n.type.name.startswith("h") else "[" + n.type.name + "]",
+                                                                              lambda ty: "" if ty.startswith("h") else "[" + ty + "]"), ("", "#", "#")):
+                    st4, txt2 = outcome(lambda: d.text_between(f, t, sep, lt_impl))
+                    exp2 = ref_text_between(schema, d.to_json().get("content"), f, t, sep, lt_ref)
+                    ctx.count("text_between_sep_calls")
+                    if st4 != "ok" or txt2 != exp2:
+                        ctx.violation("text_between-separators", "text_between with a block separator / leaf text does not give the documented text",
+                                      dict(replay, separator=sep, leaf_text=lt_ref if isinstance(lt_ref, str) else "[type name], empty for h*",
+                                           got=txt2 if st4 == "ok" else str(txt2), expected=exp2))
+                        break
                 # visited nodes: exactly those whose token interval meets (from, to) [start < to and end > from], in document order
                 exp_vis = expected_visits(toks, f, t)
                 if [v[1] for v in vis] != exp_vis:
@@ -233,6 +270,54 @@ def expected_visits(toks, f, t):
             continue
         i += 1
     return out
+
+
+def ref_text_between(schema, content, f, t, sep, leaf_text):
+    """the documented text_between over the JSON tree: text inside the range; `leaf_text` (string or function of the
+    node's type name) for every non-text leaf met; `sep` once before each block node met after some text or leaf —
+    a leaf counts whether or not it contributed text"""
+    from ..codec import units
+    out, state = [], {"separated": True}
+
+    def walk(kids, pos, f, t):
+        for c in kids or []:
+            if pos >= t:
+                break
+            ty = c["type"]
+            if ty == "text":
+                us = units(c["text"])
+                size = len(us)
+            else:
+                nt = schema.nodes[ty]
+                size = 1 if nt.is_leaf else 2 + content_size(schema, c.get("content"))
+            end = pos + size
+            if end > f:
+                if ty == "text":
+                    out.append(from_units(us[max(f, pos) - pos:max(0, t - pos)]))
+                    state["separated"] = not sep
+                elif schema.nodes[ty].is_leaf:
+                    if leaf_text:
+                        out.append(leaf_text(ty) if callable(leaf_text) else leaf_text)
+                    state["separated"] = not sep
+                else:
+                    if not state["separated"] and schema.nodes[ty].is_block:
+                        out.append(sep)
+                        state["separated"] = True
+                    walk(c.get("content"), pos + 1, f, t)
+            pos = end
+    walk(content, 0, f, t)
+    return "".join(out)
+
+
+def content_size(schema, kids):
+    from ..codec import units
+    n = 0
+    for c in kids or []:
+        if c["type"] == "text":
+            n += len(units(c["text"]))
+        else:
+            n += 1 if schema.nodes[c["type"]].is_leaf else 2 + content_size(schema, c.get("content"))
+    return n
 
 
 def expected_marks(schema, toks, pos, anc, parent_end):
